@@ -36,7 +36,8 @@ type File struct {
 	Desc    string `json:"desc,omitempty"` // WithFileDescription
 	CID     string `json:"cid,omitempty"`  // WithFileContentID
 	CT      string `json:"ct,omitempty"`   // WithFileContentType
-	// Source: "" = File struct with Writer; "reader" / "readseeker" = AttachReader / AttachReadSeeker on a private
+	// Source: "" = File struct with Writer; "reader@" / "readseeker@" = the same on a source that stands behind a header the caller has read already;
+	// "reader" / "readseeker" = AttachReader / AttachReadSeeker on a private
 	// *bytes.Reader; "buffer" = AttachReader on ONE *bytes.Buffer shared by all such files of the message, which the
 	// caller refills for the next file and finally overwrites (the library documents that readers are consumed at
 	// the call); memory handed to a consuming API is overwritten by Build before it returns
@@ -368,6 +369,21 @@ func Build(s Msg, h *Hooks) (*mail.Msg, error) {
 					note(m.AttachReader(f.Name, bytes.NewReader(own), fo...))
 				} else {
 					note(m.EmbedReader(f.Name, bytes.NewReader(own), fo...))
+				}
+				continue
+			case "readseeker@", "reader@":
+				// the caller has already consumed a header in front of the content: the source stands at an offset
+				rd := bytes.NewReader(append([]byte("ENVELOPE-HEADER-CONSUMED-BY-THE-CALLER\n"), f.Content...))
+				_, _ = rd.Seek(int64(len("ENVELOPE-HEADER-CONSUMED-BY-THE-CALLER\n")), io.SeekStart)
+				switch {
+				case f.Source == "reader@" && attach:
+					note(m.AttachReader(f.Name, rd, fo...))
+				case f.Source == "reader@":
+					note(m.EmbedReader(f.Name, rd, fo...))
+				case attach:
+					m.AttachReadSeeker(f.Name, rd, fo...)
+				default:
+					m.EmbedReadSeeker(f.Name, rd, fo...)
 				}
 				continue
 			case "readseeker":
